@@ -34,7 +34,7 @@ func load(dir string) *src {
 	sort.Strings(names)
 	for _, n := range names {
 		base := filepath.Base(n)
-		if strings.HasSuffix(base, "_test.go") || strings.HasSuffix(base, "_verif.go") ||
+		if strings.HasSuffix(base, "_test.go") || strings.HasSuffix(base, "_verif.go") || strings.HasPrefix(base, "export_verif") ||
 			strings.HasSuffix(base, "_windows.go") || strings.HasSuffix(base, "_darwin.go") || strings.HasSuffix(base, "_other.go") {
 			continue
 		}
